@@ -97,14 +97,15 @@ func c08Pair(c *core.Ctx) {
 
 // c08Store: what the proofs are read from — every node of a path is stored, a missing node is reported as missing
 // only when it is missing, and "the last root" is the last in (block, position-in-block) order.
-func c08Store(c *core.Ctx) {
+func c08Store(c *core.Ctx) { storeRule(c, "C08-store") }
+
+func storeRule(c *core.Ctx, rule string) {
 	// the node / root lookups select by exactly the key they are given
-	checkOrdered(c, "C08-store", []orderedSpec{
+	checkOrdered(c, rule, []orderedSpec{
 		{"tree", "Tree", "getRHTNode", "VAR_T_RHTTABLE", "", []string{"HASH = $1"}, nil, []string{"(github.com/ethereum/go-ethereum/common.Hash).String(nodeHash)"}},
 		{"tree", "Tree", "GetRootByIndex", "VAR_T_ROOTTABLE", "", []string{"POSITION = $1"}, nil, []string{"index"}},
 		{"tree", "Tree", "GetRootByHash", "VAR_T_ROOTTABLE", "", []string{"HASH = $1"}, nil, []string{"(github.com/ethereum/go-ethereum/common.Hash).Hex(hash)"}},
 	})
-	const rule = "C08-store"
 	sx := core.NewSymx()
 	sn := c.MustFn(rule, "tree", "Tree", "storeNodes")
 	if sn != nil {
